@@ -31,9 +31,36 @@ proofs/CrcLemmas.vos proofs/CrcLemmas.vok proofs/CrcLemmas.required_vos: proofs/
 proofs/EncapSpec.vo proofs/EncapSpec.glob proofs/EncapSpec.v.beautified proofs/EncapSpec.required_vo: proofs/EncapSpec.v gen/Consts.vo model/Base.vo model/Types.vo model/Header.vo model/Ext.vo model/Encap.vo proofs/Tactics.vo proofs/BaseLemmas.vo proofs/HeaderLemmas.vo
 proofs/EncapSpec.vio: proofs/EncapSpec.v gen/Consts.vio model/Base.vio model/Types.vio model/Header.vio model/Ext.vio model/Encap.vio proofs/Tactics.vio proofs/BaseLemmas.vio proofs/HeaderLemmas.vio
 proofs/EncapSpec.vos proofs/EncapSpec.vok proofs/EncapSpec.required_vos: proofs/EncapSpec.v gen/Consts.vos model/Base.vos model/Types.vos model/Header.vos model/Ext.vos model/Encap.vos proofs/Tactics.vos proofs/BaseLemmas.vos proofs/HeaderLemmas.vos
+proofs/EncapProps.vo proofs/EncapProps.glob proofs/EncapProps.v.beautified proofs/EncapProps.required_vo: proofs/EncapProps.v gen/Consts.vo model/Base.vo model/Types.vo model/Header.vo model/Ext.vo model/Encap.vo proofs/Tactics.vo proofs/BaseLemmas.vo proofs/HeaderLemmas.vo proofs/EncapSpec.vo
+proofs/EncapProps.vio: proofs/EncapProps.v gen/Consts.vio model/Base.vio model/Types.vio model/Header.vio model/Ext.vio model/Encap.vio proofs/Tactics.vio proofs/BaseLemmas.vio proofs/HeaderLemmas.vio proofs/EncapSpec.vio
+proofs/EncapProps.vos proofs/EncapProps.vok proofs/EncapProps.required_vos: proofs/EncapProps.v gen/Consts.vos model/Base.vos model/Types.vos model/Header.vos model/Ext.vos model/Encap.vos proofs/Tactics.vos proofs/BaseLemmas.vos proofs/HeaderLemmas.vos proofs/EncapSpec.vos
+proofs/FragRun.vo proofs/FragRun.glob proofs/FragRun.v.beautified proofs/FragRun.required_vo: proofs/FragRun.v gen/Consts.vo model/Base.vo model/Types.vo model/Header.vo model/Ext.vo model/Encap.vo proofs/Tactics.vo proofs/BaseLemmas.vo proofs/HeaderLemmas.vo proofs/EncapSpec.vo proofs/EncapProps.vo
+proofs/FragRun.vio: proofs/FragRun.v gen/Consts.vio model/Base.vio model/Types.vio model/Header.vio model/Ext.vio model/Encap.vio proofs/Tactics.vio proofs/BaseLemmas.vio proofs/HeaderLemmas.vio proofs/EncapSpec.vio proofs/EncapProps.vio
+proofs/FragRun.vos proofs/FragRun.vok proofs/FragRun.required_vos: proofs/FragRun.v gen/Consts.vos model/Base.vos model/Types.vos model/Header.vos model/Ext.vos model/Encap.vos proofs/Tactics.vos proofs/BaseLemmas.vos proofs/HeaderLemmas.vos proofs/EncapSpec.vos proofs/EncapProps.vos
+proofs/Policy.vo proofs/Policy.glob proofs/Policy.v.beautified proofs/Policy.required_vo: proofs/Policy.v gen/Consts.vo model/Base.vo model/Types.vo model/Header.vo model/Ext.vo model/Encap.vo proofs/Tactics.vo proofs/BaseLemmas.vo proofs/HeaderLemmas.vo proofs/EncapSpec.vo proofs/EncapProps.vo
+proofs/Policy.vio: proofs/Policy.v gen/Consts.vio model/Base.vio model/Types.vio model/Header.vio model/Ext.vio model/Encap.vio proofs/Tactics.vio proofs/BaseLemmas.vio proofs/HeaderLemmas.vio proofs/EncapSpec.vio proofs/EncapProps.vio
+proofs/Policy.vos proofs/Policy.vok proofs/Policy.required_vos: proofs/Policy.v gen/Consts.vos model/Base.vos model/Types.vos model/Header.vos model/Ext.vos model/Encap.vos proofs/Tactics.vos proofs/BaseLemmas.vos proofs/HeaderLemmas.vos proofs/EncapSpec.vos proofs/EncapProps.vos
 props/C14.vo props/C14.glob props/C14.v.beautified props/C14.required_vo: props/C14.v model/Base.vo model/Types.vo model/Header.vo proofs/HeaderLemmas.vo
 props/C14.vio: props/C14.v model/Base.vio model/Types.vio model/Header.vio proofs/HeaderLemmas.vio
 props/C14.vos props/C14.vok props/C14.required_vos: props/C14.v model/Base.vos model/Types.vos model/Header.vos proofs/HeaderLemmas.vos
+props/C12.vo props/C12.glob props/C12.v.beautified props/C12.required_vo: props/C12.v gen/CrcTable.vo model/Base.vo model/Crc.vo proofs/CrcLemmas.vo proofs/HeaderLemmas.vo
+props/C12.vio: props/C12.v gen/CrcTable.vio model/Base.vio model/Crc.vio proofs/CrcLemmas.vio proofs/HeaderLemmas.vio
+props/C12.vos props/C12.vok props/C12.required_vos: props/C12.v gen/CrcTable.vos model/Base.vos model/Crc.vos proofs/CrcLemmas.vos proofs/HeaderLemmas.vos
+props/C09.vo props/C09.glob props/C09.v.beautified props/C09.required_vo: props/C09.v model/Base.vo model/Types.vo model/Ext.vo model/Encap.vo proofs/Tactics.vo proofs/EncapSpec.vo proofs/EncapProps.vo
+props/C09.vio: props/C09.v model/Base.vio model/Types.vio model/Ext.vio model/Encap.vio proofs/Tactics.vio proofs/EncapSpec.vio proofs/EncapProps.vio
+props/C09.vos props/C09.vok props/C09.required_vos: props/C09.v model/Base.vos model/Types.vos model/Ext.vos model/Encap.vos proofs/Tactics.vos proofs/EncapSpec.vos proofs/EncapProps.vos
+props/C11.vo props/C11.glob props/C11.v.beautified props/C11.required_vo: props/C11.v model/Base.vo model/Types.vo model/Ext.vo model/Encap.vo proofs/Tactics.vo proofs/BaseLemmas.vo proofs/EncapSpec.vo proofs/EncapProps.vo proofs/FragRun.vo
+props/C11.vio: props/C11.v model/Base.vio model/Types.vio model/Ext.vio model/Encap.vio proofs/Tactics.vio proofs/BaseLemmas.vio proofs/EncapSpec.vio proofs/EncapProps.vio proofs/FragRun.vio
+props/C11.vos props/C11.vok props/C11.required_vos: props/C11.v model/Base.vos model/Types.vos model/Ext.vos model/Encap.vos proofs/Tactics.vos proofs/BaseLemmas.vos proofs/EncapSpec.vos proofs/EncapProps.vos proofs/FragRun.vos
+props/C06.vo props/C06.glob props/C06.v.beautified props/C06.required_vo: props/C06.v model/Base.vo model/Types.vo model/Ext.vo model/Encap.vo proofs/Tactics.vo proofs/BaseLemmas.vo proofs/HeaderLemmas.vo proofs/EncapSpec.vo proofs/EncapProps.vo
+props/C06.vio: props/C06.v model/Base.vio model/Types.vio model/Ext.vio model/Encap.vio proofs/Tactics.vio proofs/BaseLemmas.vio proofs/HeaderLemmas.vio proofs/EncapSpec.vio proofs/EncapProps.vio
+props/C06.vos props/C06.vok props/C06.required_vos: props/C06.v model/Base.vos model/Types.vos model/Ext.vos model/Encap.vos proofs/Tactics.vos proofs/BaseLemmas.vos proofs/HeaderLemmas.vos proofs/EncapSpec.vos proofs/EncapProps.vos
+props/C18.vo props/C18.glob props/C18.v.beautified props/C18.required_vo: props/C18.v model/Base.vo model/Types.vo model/Ext.vo model/Encap.vo proofs/Tactics.vo proofs/BaseLemmas.vo proofs/EncapSpec.vo proofs/EncapProps.vo
+props/C18.vio: props/C18.v model/Base.vio model/Types.vio model/Ext.vio model/Encap.vio proofs/Tactics.vio proofs/BaseLemmas.vio proofs/EncapSpec.vio proofs/EncapProps.vio
+props/C18.vos props/C18.vok props/C18.required_vos: props/C18.v model/Base.vos model/Types.vos model/Ext.vos model/Encap.vos proofs/Tactics.vos proofs/BaseLemmas.vos proofs/EncapSpec.vos proofs/EncapProps.vos
+props/C15.vo props/C15.glob props/C15.v.beautified props/C15.required_vo: props/C15.v model/Base.vo model/Types.vo model/Ext.vo model/Encap.vo proofs/Tactics.vo proofs/EncapSpec.vo proofs/EncapProps.vo proofs/Policy.vo
+props/C15.vio: props/C15.v model/Base.vio model/Types.vio model/Ext.vio model/Encap.vio proofs/Tactics.vio proofs/EncapSpec.vio proofs/EncapProps.vio proofs/Policy.vio
+props/C15.vos props/C15.vok props/C15.required_vos: props/C15.v model/Base.vos model/Types.vos model/Ext.vos model/Encap.vos proofs/Tactics.vos proofs/EncapSpec.vos proofs/EncapProps.vos proofs/Policy.vos
 model/Crc.vo model/Crc.glob model/Crc.v.beautified model/Crc.required_vo: model/Crc.v gen/Consts.vo gen/CrcTable.vo model/Base.vo
 model/Crc.vio: model/Crc.v gen/Consts.vio gen/CrcTable.vio model/Base.vio
 model/Crc.vos model/Crc.vok model/Crc.required_vos: model/Crc.v gen/Consts.vos gen/CrcTable.vos model/Base.vos
